@@ -266,10 +266,15 @@ pub mod " ++ display name ++ " {
 " ++ mod_stream)%string)
     end.
 
+  (* mod_file_name: "mod.rs" for the root module (repair of finding F-14f; before it "/mod.rs", an absolute path),
+     otherwise <p joined by '/'>/mod.rs *)
+  Definition mod_file_name (p : path) : string :=
+    match p with [] => "mod.rs" | _ => (join "/" p ++ "/mod.rs")%string end.
+
   Definition split_group (p : path) (its : list item) : dir_log * string :=
     let '(log, mod_stream) := split_items [] its in
     (log ++ [("mod.rs", mod_stream)],
-     ("include!(""" ++ join "/" p ++ "/mod.rs"");
+     ("include!(""" ++ mod_file_name p ++ """);
 ")%string).
 
   (* ---- write_items ------------------------------------------------------------------------------------ *)
